@@ -240,7 +240,15 @@ def run(ctx):
                 lp = lp[:a] + lp[b:]
             lproofs = os.path.join(ctx.gen_dir, "GenFilterLoopProofs.v")
             open(lproofs, "w").write(lp)
-            ctx.coq_file(lproofs, extra_q=[(ctx.gen_dir, "PqGen")], obligations=["gen:loop:" + n for n in C.theorem_names(lproofs)])
+            # the refinement script is specific to the loop's shape: when it does not go through (a real change such as the
+            # hoisted `vmax, vmin = None, None`, but also a neutral restructuring) the tie falls back, closed, to the hand model +
+            # row-group correspondence + oracle, which produce the concrete inputs for a real change and stay silent otherwise
+            okp, outp = C.coqc(lproofs, extra_q=[(ctx.gen_dir, "PqGen")], timeout=900)
+            if not okp:
+                raise py2coq.Unsupported("refinement proof does not apply to the regenerated loop (%s): %s" % (C.failing_theorem(lproofs, outp), outp[-300:]))
+            for n in C.theorem_names(lproofs):
+                ctx.obligation("gen:loop:" + n, True, "re-proved on the regenerated filter_out_stats")
+            ctx.extra.setdefault("loop_print_assumptions", "Closed under the global context" in outp)
             ctx.extra["translator"]["loop"] = {"status": "ok", "functions": ["filter_out_stats"], "external_calls": sorted(set(re.findall(r'\(ext "([^"]+)"', ltext)))}
         except py2coq.Unsupported as e:
             ctx.extra["translator"]["loop"] = {"status": "translator_fallback_loop", "reason": str(e)[:500]}
